@@ -27,8 +27,10 @@ import (
 var namePool = []string{"", "a", "b", "dev/1", "Dev/1", "dev/1 ", "dev", "dev/1/x", "é", "a/b/c", "F1", "F2", "xFy", "B1", "B2", "FB",
 	"building/floor-3/room 12/light-0000000000000000000000000000000000000000000000000000000000000001"}
 
-func inFactoryDomain(n string) bool  { return strings.Contains(n, "F") }
-func inFallbackDomain(n string) bool { return strings.Contains(n, "B") }
+// The providers know the names with an F (factory) resp. a B (fallback) in them, and both know the empty name (a
+// server without the default-name interceptor routes requests that name nothing to whoever serves "").
+func inFactoryDomain(n string) bool  { return n == "" || strings.Contains(n, "F") }
+func inFallbackDomain(n string) bool { return n == "" || strings.Contains(n, "B") }
 
 // world is one router under test with its fake clients and the model of its registry.
 type world struct {
